@@ -315,47 +315,72 @@ def c04Witness : Conf × G :=
   ({ run := fun _ => { cfg := { N := 1, retries := 0 }, exe := 0 } },
    { rs := fun _ => { script := [.exit 127 false 0] } })
 
-/-- FULL STATEMENT (false of the current code):
-    `∀ cf k g order cs, sharedAbandon cf (session cf k g order cs) order = true`
-— after a 127 no other run of the same executable is started.
-Witness: batch scheduling of two runs sharing the executable; the second run is
-still started once, because `RunId.executable` is `None` until the run's own
-command line has been built (`has_same_executable` compares `None` with the name). -/
-theorem c04_abandon_127_shared_full_fails :
-    ¬ (∀ (cf : Conf) (k : Kind) (g : G) (order cs : List Nat),
-        sharedAbandon cf (session cf k g order cs) order = true) := by
-  intro h
-  have := h c04Witness.1 .batch c04Witness.2 [0, 1] [0, 0, 0, 0]
-  revert this
+/-- The pinned tree compared `RunId.executable`, which is `None` until a run's own
+command line has been built: a run that had not been started yet never compared
+equal, so it was not abandoned and was still started once (replayed on the real
+code; repaired by comparing the executors' configured path and executable). -/
+theorem c04_pinned_abandon_127_shared_skips_unstarted :
+    sameExePinned c04Witness.1 c04Witness.2 0 1 = false ∧ sameExe c04Witness.1 c04Witness.2 0 1 = true ∧
+    sharedAbandon c04Witness.1 (session c04Witness.1 .batch c04Witness.2 [0, 1] [0, 0, 0, 0]) [0, 1] = true := by
   decide
 
-/-- what holds instead (1): `without_missing_binaries` marks and removes exactly
-the runs of the task list *whose command line has already been built* and that
-use the same executable; every other run is left untouched and stays -/
-theorem c04_abandon_127_shared_partial (cf : Conf) (p : Nat) (g : G) (tasks : List Nat) (q : Nat)
+/-- "exit status 127 abandons at once … every other run using the same
+executable" (1): `without_missing_binaries` marks and removes exactly the runs
+of the task list that use the same executable — started or not; every other run
+is left untouched and stays -/
+theorem c04_abandon_127_shared_step (cf : Conf) (p : Nat) (g : G) (tasks : List Nat) (q : Nat)
     (hq : q ∈ tasks) :
-    ((g.rs q).cmdBuilt = true ∧ (cf.run q).exe = (cf.run p).exe →
+    ((cf.run q).exe = (cf.run p).exe →
         ((withoutMissing cf p g tasks).1.rs q).t.failNow = true ∧ q ∉ (withoutMissing cf p g tasks).2) ∧
-    (¬ ((g.rs q).cmdBuilt = true ∧ (cf.run q).exe = (cf.run p).exe) →
+    ((cf.run q).exe ≠ (cf.run p).exe →
         (withoutMissing cf p g tasks).1.rs q = g.rs q ∧ q ∈ (withoutMissing cf p g tasks).2) := by
   obtain ⟨_, i2, i3, i4, _, _⟩ := withoutMissing_spec cf p g tasks
   constructor
   · intro h
-    exact i3 q hq (by simp [sameExe, h.1, h.2])
+    exact i3 q hq (by simp [sameExe, h])
   · intro h
-    have hs : sameExe cf g p q = false := by
-      simp only [sameExe, Bool.and_eq_false_iff, beq_eq_false_iff_ne]
-      by_cases hb : (g.rs q).cmdBuilt = true
-      · right; intro e; exact h ⟨hb, e⟩
-      · left; simpa using hb
+    have hs : sameExe cf g p q = false := by simp [sameExe, h]
     exact ⟨i2 q (Or.inr hs), i4 q hq hs⟩
 
-example : (c04Witness.2.rs 1).cmdBuilt = false := by decide
-
-/-- what holds instead (2): a run removed from the task list is never started
-again in this session — the scheduler picks only from its task list -/
+/-- (2): a run removed from the task list is never started again in this
+session — the scheduler picks only from its task list -/
 theorem c04_removed_never_picked (cf : Conf) (k : Kind) (g : G) (tasks cs : List Nat) (q : Nat)
     (hq : q ∉ tasks) : q ∉ (seqLoop cf k g tasks cs).picks :=
   fun h => hq (seqLoop_picks_subset cf k g tasks cs q h)
+
+/-- **The shared clause, on the session** (sequential schedulers, every choice
+stream): once the process of the picked run `r` has returned 127, no run using
+the same executable — `r` itself included — is ever picked, hence started, again.
+(`seqLoop cf k g (t :: ts) (c :: cs)` picks `r` and then continues with
+`nextOf …`; its later picks are exactly the picks quantified over here.) -/
+theorem c04_abandon_127_shared (cf : Conf) (k : Kind) (g : G) (t : Nat) (ts : List Nat) (c : Nat) (cs : List Nat)
+    (hfb : (execRun cf g (pick k (t :: ts) c)).failedBuilding = false)
+    (hco : (execRun cf g (pick k (t :: ts) c)).completed = true)
+    (hmiss : (((execRun cf g (pick k (t :: ts) c)).g.rs (pick k (t :: ts) c)).t.exeMissing) = true) :
+    (seqLoop cf k g (t :: ts) (c :: cs)).picks
+      = pick k (t :: ts) c :: (seqLoop cf k (nextOf cf k (t :: ts) (pick k (t :: ts) c) (execRun cf g (pick k (t :: ts) c))).1
+                                 (nextOf cf k (t :: ts) (pick k (t :: ts) c) (execRun cf g (pick k (t :: ts) c))).2 cs).picks ∧
+    ∀ q ∈ (seqLoop cf k (nextOf cf k (t :: ts) (pick k (t :: ts) c) (execRun cf g (pick k (t :: ts) c))).1
+              (nextOf cf k (t :: ts) (pick k (t :: ts) c) (execRun cf g (pick k (t :: ts) c))).2 cs).picks,
+      (cf.run q).exe ≠ (cf.run (pick k (t :: ts) c)).exe := by
+  refine ⟨by simp [seqLoop], ?_⟩
+  generalize hr : pick k (t :: ts) c = r at *
+  intro q hq
+  have hsub := seqLoop_picks_subset _ _ _ _ _ q hq
+  have hnext : (nextOf cf k (t :: ts) r (execRun cf g r)).2
+      = (withoutMissing cf r (execRun cf g r).g ((t :: ts).erase r)).2 := by
+    simp [nextOf, hfb, hco, hmiss]
+  rw [hnext] at hsub
+  obtain ⟨_, _, i3, _, i5, _⟩ := withoutMissing_spec cf r (execRun cf g r).g ((t :: ts).erase r)
+  have hqin : q ∈ (t :: ts).erase r := i5.subset hsub
+  intro he
+  exact (i3 q hqin (by simp [sameExe, he])).2 hsub
+
+/-- non-vacuity: batch, two runs of one executable; the first process returns 127 -/
+example : let cf := c04Witness.1; let g := c04Witness.2
+    (execRun cf g (pick .batch [0, 1] 0)).failedBuilding = false ∧
+    (execRun cf g (pick .batch [0, 1] 0)).completed = true ∧
+    ((execRun cf g (pick .batch [0, 1] 0)).g.rs (pick .batch [0, 1] 0)).t.exeMissing = true ∧
+    (session cf .batch g [0, 1] [0, 0, 0]).trace = [(0, .start 1)] := by decide
 
 end RB.Sched
